@@ -44,6 +44,9 @@ type Case struct {
 	// RegisterField call is made (a warm-up whose response is not looked at) - the bindings the
 	// application registers arrive after the root has already been used.
 	LateRegister bool `json:"late_register,omitempty"`
+	// ExtraSDL is loaded after the schema (extensions the harness' schema model does not describe,
+	// e.g. a field no Go member answers to).
+	ExtraSDL string `json:"extra_sdl,omitempty"`
 	// Warm: other (valid) requests over the same schema and data that the root has answered before
 	// the request of the case arrives; their responses are not looked at. A root serves many
 	// requests, whatever it caches has to stay right for the next one.
@@ -587,6 +590,11 @@ func NewWorld(c *Case) (*World, error) {
 	}
 	if err := w.Root.ParseString(c.Schema.SDL(hx.SDLOpts{})); err != nil {
 		return nil, fmt.Errorf("schema rejected: %w\n%s", err, c.Schema.SDL(hx.SDLOpts{}))
+	}
+	if c.ExtraSDL != "" {
+		if err := w.Root.ParseString(c.ExtraSDL); err != nil {
+			return nil, fmt.Errorf("extra SDL rejected: %w\n%s", err, c.ExtraSDL)
+		}
 	}
 	if c.Universe {
 		if c.LateRegister {
